@@ -64,6 +64,8 @@ def scenario(kind, ending, idx, fault, k, init_state=None, stateful=False, m=0):
                 rec["landed"] = L.landed
                 rec["label"] = L.label
                 rec["obs_early"], rec["obs_early_err"] = wsim.observe(w)
+                rec["user_state_early"] = w.user_state
+                rec["state_log_early"] = list(T.STATE_LOG)
             if L is not None:
                 L.release()
             rec["wait"] = w.wait(timeout=TMO)
